@@ -22,8 +22,11 @@ stored cell to 1e-9, and if the vertex lies in the donor domain the stored cell 
 (stage 1 and 2 ALWAYS: min weight >= -1e-12 whether or not the vertex is in the domain: the acceptance test).
 """
 import math
+import os
+import random
 from fractions import Fraction
 
+from . import cli, pyio
 from .common import Stream
 from .streams_interp import fh, hf, H, exact_bary, float_minbary
 
@@ -448,8 +451,9 @@ def oracle_locate(ops, impl):
             elif w[0] == 'dcell':
                 s.dcells[int(w[1])].append(tuple(int(v) for v in w[2:-1]))
             elif w[0] == 'rnode':
-                s.rxyz[int(w[2])] = tuple(hf(v) for v in w[4:7])
-                s.rown[int(w[2])] = int(w[3])
+                if w[1] == w[3]:  # the owner's copy (a ghost copy alone says nothing: a shrunk input may have lost the owner)
+                    s.rxyz[int(w[2])] = tuple(hf(v) for v in w[4:7])
+                    s.rown[int(w[2])] = int(w[3])
             elif w[0] == 'geomlist':
                 k = o.index('T')
                 s.dgeom += len(o[2:k])
@@ -523,3 +527,124 @@ LOCATE_MPI3 = Stream('interp_locate_mpi3', 'h_interplocate', 'interplocate', gen
                      whitebox=['ref_interp'], np=[3], driver_args=('3',), nontrivial=_nontriv, session='reset', timeout=900)
 LOCATE_MPI2.ops_file = True
 LOCATE_MPI3.ops_file = True
+
+
+# ------------------------------------------------------------------------------------------------ end to end: `ref interpolate`
+CLI_KINDS = ['nested', 'offset', 'offset', 'offset', 'same', 'stretched', 'round', 'big', 'partial']
+
+
+def off_fields(d):
+    """ldim = 3: two fields linear in space and one bounded nonlinear one"""
+    a = [float(x) for x in d.get('lin', '1,2,3,4,-2,1,0.5,3').split(',')]
+
+    def f(p):
+        x, y, z = (tuple(p) + (0.0, 0.0))[:3]
+        return [a[0] + a[1] * x + a[2] * y + a[3] * z, a[4] + a[5] * x + a[6] * y + a[7] * z,
+                math.sin(3.0 * x + 0.5) * math.cos(2.0 * y) + 0.25 * math.sin(5.0 * z)]
+    return f
+
+
+def off_pair(d):
+    rng = random.Random(int(d.get('mseed', '1')))
+    twod = d.get('dim', '2') == '2'
+    return pair(rng, twod, d.get('kind', 'offset'))
+
+
+def write_pair(case, dm, rm):
+    dim = 2 if dm.twod else 3
+
+    def cells(m):
+        if m.twod:
+            return {'tri': [tuple(c) + (1,) for c in m.cells], 'edg': [tuple(f) + (i,) for f, i in m.bnd]}
+        return {'tet': [tuple(c) + (1,) for c in m.cells], 'tri': [tuple(f) + (i,) for f, i in m.bnd]}
+    pyio.write_meshb(os.path.join(case, 'donor.meshb'), dim, [p[:dim] for p in dm.xyz], cells(dm))
+    pyio.write_meshb(os.path.join(case, 'rec.meshb'), dim, [p[:dim] for p in rm.xyz], cells(rm))
+
+
+def sc_interpoff(ctx, d, case):
+    dm, rm = off_pair(d)
+    write_pair(case, dm, rm)
+    f = off_fields(d)
+    dim = 2 if dm.twod else 3
+    pyio.write_solb(os.path.join(case, 'donor.solb'), dim, [f(p) for p in dm.xyz], [1, 1, 1])
+    np = int(d.get('np', '0'))
+    rc, tail = cli.run_ref(ctx, np, ['interpolate', os.path.join(case, 'donor.meshb'), os.path.join(case, 'donor.solb'),
+                                     os.path.join(case, 'rec.meshb'), os.path.join(case, 'rec.solb')], case)
+    return 'rc=%d dir=%s' % (rc, case)
+
+
+cli.SCENARIOS['interpoff'] = sc_interpoff
+
+
+def oracle_interpoff(ops, impl):
+    bad = []
+    for i, (op, line) in enumerate(zip(ops, impl)):
+        d = cli.kv(op)
+        o = cli.parse_out(line)
+        if o.get('rc') != '0':
+            bad.append((i, 'interpolate exited with status %s' % o.get('rc')))
+            continue
+        try:
+            dmesh = pyio.read_meshb(os.path.join(o['dir'], 'donor.meshb'))
+            rmesh = pyio.read_meshb(os.path.join(o['dir'], 'rec.meshb'))
+            ds = pyio.read_solb(os.path.join(o['dir'], 'donor.solb'))
+            rs = pyio.read_solb(os.path.join(o['dir'], 'rec.solb'))
+        except Exception as ex:
+            bad.append((i, 'result files unreadable: %r' % (ex,)))
+            continue
+        if len(rs['values']) != len(rmesh['verts']) or rs['ldim'] != 3:
+            bad.append((i, 'receptor field has %d x %d entries for %d vertices, ldim 3'
+                        % (len(rs['values']), rs['ldim'], len(rmesh['verts']))))
+            continue
+        twod = d.get('dim', '2') == '2'
+        f = off_fields(d)
+        s = OSess(1, twod)
+        pts = [tuple(p) + (0.0,) * (3 - len(p)) for p in dmesh['verts']]
+        s.dxyz[0] = pts
+        s.dglob[0] = list(range(len(pts)))
+        s.dcells[0] = [tuple(c[:-1]) for c in dmesh['cells']['tri' if twod else 'tet']]
+        sc = max(max(abs(x) for x in r) for r in ds['values'])
+        lo = [min(r[k] for r in ds['values']) for k in range(3)]
+        hi = [max(r[k] for r in ds['values']) for k in range(3)]
+        for n, p in enumerate(rmesh['verts']):
+            x = tuple(p) + (0.0,) * (3 - len(p))
+            v = rs['values'][n]
+            for k in range(3):
+                eps = 1e-12 * max(abs(lo[k]), abs(hi[k]), 1e-300)
+                if not (lo[k] - eps <= v[k] <= hi[k] + eps):
+                    bad.append((i, 'C11 receptor vertex %d %r component %d = %.17g leaves the donor range [%.17g, %.17g]'
+                                % (n, x, k, v[k], lo[k], hi[k])))
+                    break
+            else:
+                if s.in_domain(x):
+                    ex = f(x)
+                    for k in range(2):
+                        if abs(ex[k] - v[k]) > 1e-10 * sc:
+                            bad.append((i, 'C11 linear field %d not reproduced at receptor vertex %d %r, which lies inside '
+                                           'the donor domain: %.17g, exact %.17g (error %.3e)'
+                                        % (k, n, x, v[k], ex[k], abs(ex[k] - v[k]))))
+                            break
+                    else:
+                        continue
+                    break
+                continue
+            break
+    return bad
+
+
+def gen_interpoff(rng, tier, np=None):
+    ops = []
+    for _ in range(8 if tier == 'quick' else 30):
+        op = 'interpoff dim=%d kind=%s mseed=%d lin=%s' % (
+            rng.choice([2, 3]), rng.choice(CLI_KINDS), rng.randint(1, 10 ** 6),
+            ','.join('%.2f' % rng.uniform(-3, 3) for _ in range(8)))
+        if np:
+            op += ' np=%d' % np
+        ops.append(op)
+    return ops
+
+
+CLI_OFFSET = Stream('cli_interp_offset', cli.cli_harness, None, gen_interpoff, oracle=oracle_interpoff, kind='oracle',
+                    nontrivial=lambda op, out: out.startswith('rc=0'), timeout=900)
+CLI_OFFSET_MPI = Stream('cli_interp_offset_mpi', cli.cli_harness, None, gen_interpoff, oracle=oracle_interpoff, kind='oracle',
+                        np=[2, 3], nontrivial=lambda op, out: out.startswith('rc=0'), timeout=900)
